@@ -233,8 +233,9 @@ def run_front(ctx, repeat=1, cross_modes=True, vary_env=False):
         rc, so, se = outs[0]
         rep.count("front:mode:%s" % ("expr" if s["expr"] is not None else "stdin"))
         rep.count("front:file:%s" % (s["file"] is not None))
-        if s.get("aborts"):
-            pass        # a session that ends in a known abort (K4): only its repeatability is judged
+        if s.get("aborts") or getattr(rep, "blackbox", False):
+            pass        # a session that ends in a known abort (K4): only its repeatability is judged; in black-box mode the
+            # prediction comes from the model (stream sessions-inprocess above), not from an in-process run
         elif rc != 0 or so != pred:
             mism += 1
             if mism <= 5:
